@@ -226,7 +226,7 @@ public:
             //setup internal awaiter
             _internal.set_resume_fn(resume_fn_sync, this);
             //resume generator, function exits on co_yield or co_await
-            h.resume();
+            resume_in_queue(h);
             //block thread if the generator still running
             _block.wait(false, std::memory_order_acquire);
         }
@@ -248,7 +248,7 @@ public:
                 //setup internal awaiter
                 _internal.set_resume_fn(resume_fn_future, this);
                 //resume generator
-                h.resume();
+                resume_in_queue(h);
                 //once generator is done, _awaiting is set
             };
         }
@@ -256,6 +256,16 @@ public:
 
         bool done() const {
             return _done;
+        }
+
+        //resume the generator from non-awaiting code. When the caller is ordinary code, there
+        //is no coroutine queue on this thread: install it for this activation (and drain it
+        //before return), otherwise the body of the generator would run outside of the
+        //coroutine mode (readied coroutines would start in the middle of the body and
+        //co_await pause() would have no queue to work with)
+        static void resume_in_queue(std::coroutine_handle<> h) {
+            if (coro_queue::is_active()) h.resume();
+            else coro_queue::install_queue_and_resume(h);
         }
 
         const std::exception_ptr &exception() const {
@@ -329,7 +339,7 @@ public:
 
         ///subscribe other awaiter)
         bool subscribe(awaiter *awt) {
-            this->_owner._promise->next_async(awt).resume();
+            promise_type::resume_in_queue(this->_owner._promise->next_async(awt));
             return true;
         }
 
